@@ -48,7 +48,7 @@ constexpr auto submdspan_static_extent()
 template <etl::size_t K, typename Extents, size_t... NewExtents>
 struct submdspan_extents_builder {
     template <typename Slice, typename... SlicesAndExtents>
-    static constexpr auto next(Extents const& ext, Slice const& /*unused*/, SlicesAndExtents... slicesAndExtents)
+    static constexpr auto next(Extents const& ext, [[maybe_unused]] Slice const& slice, SlicesAndExtents... slicesAndExtents)
     {
         if constexpr (etl::is_convertible_v<Slice, etl::full_extent_t>) {
             return submdspan_extents_builder<
@@ -61,10 +61,12 @@ struct submdspan_extents_builder {
         } else if constexpr (is_strided_slice<Slice>) {
             static_assert(etl::always_false<Slice>);
         } else {
+            using IndexT                = typename Extents::index_type;
             constexpr auto newStaticExt = submdspan_static_extent<K, Extents, Slice>();
             return submdspan_extents_builder<K - 1, Extents, NewExtents..., newStaticExt>::next(
                 ext,
-                slicesAndExtents...
+                slicesAndExtents...,
+                static_cast<IndexT>(static_cast<IndexT>(get<1>(slice)) - static_cast<IndexT>(get<0>(slice)))
             );
         }
     }
